@@ -13,5 +13,21 @@ pub broadcast axiom fn axiom_u32_to_string(n: &u32, res: String)
     requires #[trigger] to_string_from_display_ensures::<u32>(n, res),
     ensures res@ == u32_text(*n);
 
+
+/// the decimal digit character of d (0..=9)
+pub open spec fn digit_c(d: int) -> char { (48 + d) as u8 as char }
+/// the decimal text of a natural number: no sign, no padding, "0" for zero
+pub open spec fn dec(n: nat) -> Seq<char>
+    decreases n
+{
+    if n < 10 { seq![digit_c(n as int)] } else { dec(n / 10).push(digit_c((n % 10) as int)) }
+}
+
+// TRUSTED[u64-to-string-decimal]: `n.to_string()` of a u64 is its decimal text without sign or padding (std: Display for
+// integers; vstd leaves to_string_from_display_ensures uninterpreted for integers).
+pub broadcast axiom fn axiom_u64_to_string(n: &u64, res: String)
+    requires #[trigger] to_string_from_display_ensures::<u64>(n, res),
+    ensures res@ == dec(*n as nat);
+
 }
 }
